@@ -452,6 +452,12 @@ func runC09(c *fw.Ctx) {
 		})
 	}
 
+	// ---------- BackPropagate called again over a graph that was already back-propagated: any outcome but a panic ----------
+	for _, s := range [][]int{{}, {3}, {2, 3}, {2, 1, 2}, {3, 3}} {
+		s := s
+		c.Case(func(k *fw.K) { c09RepeatedBackprop(k, s) })
+	}
+
 	// ---------- components ----------
 	c.Case(func(k *fw.K) { c09Initializers(k) })
 	c.Case(func(k *fw.K) { c09Layers(k, pool) })
@@ -1106,5 +1112,73 @@ func c09LossesMetricsOptim(k *fw.K, pool [][]int) {
 		upd("after-reset", &reset, false)
 		var f tensor.Tensor = foreign{}
 		upd("foreign-without-gradient", &f, false)
+	}
+}
+
+// c09RepeatedBackprop: totality of BackPropagate does not depend on history: called a second time on the same root,
+// on an interior tensor first and then on the root, or on two heads over a shared trunk, it may return an error or nil
+// (what the gradients then are is outside C09, and outside C08's provisos) but it must not panic.
+func c09RepeatedBackprop(k *fw.K, shape []int) {
+	rank := len(shape)
+	var ins []ref.Instr
+	for _, op := range []string{"scale", "pow", "exp", "log", "sin", "cos", "tan", "sinh", "cosh", "tanh"} {
+		ins = append(ins, ref.Instr{Op: op, F: 2})
+	}
+	for dim := 0; dim < rank; dim++ {
+		for _, op := range c05Along {
+			ins = append(ins, ref.Instr{Op: op, Dim: dim})
+		}
+		ins = append(ins, ref.Instr{Op: "flatten", Dim: dim}, ref.Instr{Op: "unsqueeze", Dim: dim}, ref.Instr{Op: "slice", Index: []ref.Range{{From: 0, To: 1}}})
+	}
+	if rank >= 2 {
+		ins = append(ins, ref.Instr{Op: "transpose"})
+	}
+	ins = append(ins, ref.Instr{Op: "reshape", Shape: []int{ref.Prod(shape)}}, ref.Instr{Op: "broadcast", Shape: append([]int{2}, shape...)})
+	for _, op := range []string{"add", "sub", "mul", "div", "elmax", "elmin"} {
+		ins = append(ins, ref.Instr{Op: op, In: []int{0, 0}})
+	}
+	if rank >= 1 {
+		ins = append(ins, ref.Instr{Op: "dot", In: []int{0, 0}}, ref.Instr{Op: "concat", In: []int{0, 0}}, ref.Instr{Op: "patch", In: []int{0, 0}})
+	}
+	for _, in := range ins {
+		for variant := 0; variant < 3; variant++ {
+			in, variant := in, variant
+			x := rt.MustLeaf(UniquePos(k.Rng, shape, 0.3, 1.2), true)
+			xs := []tensor.Tensor{x}
+			if len(in.In) == 2 {
+				xs = []tensor.Tensor{x, x}
+			}
+			k.Count("calls", 3)
+			k.Key("BackPropagate-again/%s/%d", in.Op, variant)
+			if p := call(func() {
+				h := x.Scale(1.5) // a trunk
+				ys := []tensor.Tensor{h}
+				if len(in.In) == 2 {
+					ys = []tensor.Tensor{h, h}
+				}
+				_ = xs
+				y, err := rt.Exec(in, ys)
+				if err != nil || y == nil {
+					return
+				}
+				switch variant {
+				case 0: // the same root twice
+					_ = tensor.BackPropagate(y)
+					_ = tensor.BackPropagate(y)
+				case 1: // an interior tensor first, then the root, then the leaf
+					_ = tensor.BackPropagate(h)
+					_ = tensor.BackPropagate(y)
+					_ = tensor.BackPropagate(x)
+				default: // two heads over a shared trunk, then the first head again
+					z := y.Tanh()
+					_ = tensor.BackPropagate(z)
+					_ = tensor.BackPropagate(y)
+					_ = tensor.BackPropagate(z)
+				}
+			}); p != nil {
+				k.Case = c09call{Entry: "BackPropagate (repeated)", Args: fmt.Sprintf("graph x -> Scale -> %s on shape %v, variant %d", in.Op, shape, variant), Want: "no panic"}
+				k.Failf("BackPropagate called again over an already back-propagated graph (x -> Scale -> %s, shape %v, variant %d): PANIC: %v", in.Op, shape, variant, p)
+			}
+		}
 	}
 }
